@@ -170,7 +170,11 @@ class Series:
         else:
             if isinstance(data, (set, frozenset)) or type(data).__name__ in ("ShellMutableSet", "LinearSet"):
                 raise TypeError("'set' type is unordered")       # pandas refuses sets
-            vals = npm._as_list(data)
+            if isinstance(data, (int, float, str, bool)) or hasattr(data, "var") and not hasattr(data, "__iter__"):
+                n = len(index._values if isinstance(index, Index) else list(index)) if index is not None else 1
+                vals = [data] * n                                  # a scalar is broadcast over the index
+            else:
+                vals = npm._as_list(data)
             idx = None
         if index is not None:
             idx2 = index._values if isinstance(index, Index) else list(index)
